@@ -71,7 +71,9 @@ def tree_hash():
         h.update(f.encode())
         with open(f, 'rb') as fh:
             h.update(fh.read())
-    for extra in ('harness/drv.c', 'gen/dump.c', 'gen/emit.py'):
+    for extra in ('harness/drv.c', 'harness/stackscan.c', 'harness/threads.c', 'gen/dump.c', 'gen/emit.py'):
+        if not os.path.exists(os.path.join(VERIF, extra)):
+            continue
         with open(os.path.join(VERIF, extra), 'rb') as fh:
             h.update(fh.read())
     return h.hexdigest()[:16]
@@ -129,6 +131,19 @@ class Tree:
             return None, 'harness variant %s does not build:\n%s' % (variant, r.stdout[-3000:])
         os.rename(exe + '.tmp', exe)
         return exe, None
+
+
+def build_aux(tree, name, src, cc, flags, libs):
+    """build (cached) an auxiliary harness program from the tree; returns (path, error)"""
+    exe = os.path.join(tree.dir, name)
+    if os.path.exists(exe):
+        return exe, None
+    cmd = [cc] + flags + ['-w'] + INC + [os.path.join(VERIF, 'harness', src)] + lib_sources() + libs + ['-o', exe + '.tmp']
+    r = run(cmd)
+    if r.returncode != 0:
+        return None, '%s does not build (%s %s):\n%s' % (src, cc, ' '.join(flags), r.stdout[-3000:])
+    os.rename(exe + '.tmp', exe)
+    return exe, None
 
 
 VARIANTS = {
